@@ -596,6 +596,7 @@ def run(chk, ctx):
     base_rules(chk, ctx)
     fill_ranges(chk, ctx)
     zero_column_rule(chk, ctx)
+    skip_rule(chk, ctx)
     chk.note("not decided: that the recurrences are the optimum of the hierarchical problem, and the monotonicity "
              "statements between classes (consequences of the min over options, but they need induction over table values)")
 
@@ -1261,6 +1262,47 @@ def zero_column_rule(chk, ctx):
                    f"`{' '.join(ast.unparse(n).split())[:90]}` " + ("is the no-write option of the general entry" if ok else
                    f"is neither option of the general entry `{' '.join(ast.unparse(g).split())[:110]}`: with no slot at this level the "
                    "table records a cost that no production attains"), rel=rel, node=n, nontrivial=False)
+
+
+def skip_rule(chk, ctx):
+    """get_hopt_table: a fill loop may skip (`if T: continue`) only the cell without any memory - slot count 0 at level 0,
+    the one infeasible cell, which keeps its initial `inf`.  A test that is a conjunction of `name == 0` comparisons
+    skips only such a cell; a test built from comparisons of names with integer literals that differs from that form
+    (another literal, `!=`, `or`) skips feasible cells, which then stay `inf` and make the table claim "impossible"."""
+    repo = ctx.repo
+    rel = "hrevolve_sequences/hrevolve.py"
+    try:
+        fn = repo.func(rel, "get_hopt_table")
+    except Exception:
+        return
+    k = 0
+    for loop in ast.walk(fn):
+        if not isinstance(loop, ast.For):
+            continue
+        for st in loop.body:
+            if not (isinstance(st, ast.If) and not st.orelse and len(st.body) == 1 and isinstance(st.body[0], ast.Continue)):
+                continue
+            t = st.test
+            parts = list(t.values) if isinstance(t, ast.BoolOp) else [t]
+            simple = all(isinstance(p_, ast.Compare) and len(p_.ops) == 1 and isinstance(p_.left, ast.Name)
+                         and isinstance(p_.comparators[0], ast.Constant) and isinstance(p_.comparators[0].value, int)
+                         and not isinstance(p_.comparators[0].value, bool) for p_ in parts)
+            loopvars = {x.id for n in ast.walk(fn) if isinstance(n, ast.For) for x in ast.walk(n.target) if isinstance(x, ast.Name)}
+            names = {x.id for x in ast.walk(t) if isinstance(x, ast.Name)}
+            if not names or not names <= loopvars:
+                continue        # a test on sizes (`lmax < 1`): there is nothing to fill, no cell is skipped
+            cons = f"hrevolve_sequences.hrevolve.get_hopt_table#skip[{k}]"
+            k += 1
+            if not simple:
+                chk.decide("C07.BASE", cons, None, f"`{ast.unparse(t)}`: skip condition not a combination of `name <op> literal` tests",
+                           rel=rel, node=st, nontrivial=False)
+                continue
+            zero_cell = (not isinstance(t, ast.BoolOp) or isinstance(t.op, ast.And)) and len(parts) >= 2 and \
+                all(isinstance(p_.ops[0], ast.Eq) and p_.comparators[0].value == 0 for p_ in parts)
+            chk.decide("C07.BASE", cons, True if zero_cell else False,
+                       f"`{ast.unparse(t)}` " + ("skips only the cell with no slot at level 0" if zero_cell else
+                       "skips cells that are feasible: they keep their initial `inf`, the table says \"impossible\" where a schedule exists"),
+                       rel=rel, node=st, nontrivial=False)
 
 
 def fill_ranges(chk, ctx):
